@@ -292,3 +292,24 @@ Definition observe_fixed (data : list N) : obs3 :=
         (match a_oti a with Some o => code_of (parse_payload_id_fixed data a o) | None => 3 end)
   | r => Obs (code_of r) 3 3
   end.
+
+(* what the C06 harness observes of one datagram, on the CURRENT (repaired) parser: same record as
+   Model/Alc.observe_parse, every component computed with the checked functions above.  The C06
+   correspondence compares the implementation with this function; the C06 theorems speak about
+   Model/Alc.v, to which this one is tied by C04_fix_D1/D2/D4_conservative (equal except that the
+   panics of the unrepaired code are errors now). *)
+Definition observe_parse_fixed (m_session : N) (data : list N) : res parse_obs :=
+  a <-- parse_alc_pkt_fixed data ;;
+  match fec_of_code (lh_cp (a_lct a)) with
+  | None => Err
+  | Some f =>
+    let o := match a_oti a with Some o => o | None => session_oti f m_session end in
+    Ok {| po_cci := lh_cci (a_lct a); po_tsi := lh_tsi (a_lct a); po_toi := lh_toi (a_lct a);
+          po_cp := lh_cp (a_lct a); po_co := lh_close_object (a_lct a); po_cs := lh_close_session (a_lct a);
+          po_fdt := a_fdt a; po_cenc := a_cenc a;
+          po_fti := match a_oti a, a_transfer_length a with
+                    | Some o', Some tl => Some (oti_observation o' tl) | _, _ => None end;
+          po_sct := get_sender_current_time_fixed data a;
+          po_pid := parse_payload_id_fixed data a o;
+          po_payload_off := a_payload_off a |}
+  end.
